@@ -799,7 +799,7 @@ func c12Scenarios(tier string) []*ConcScenario {
 	var scs []*ConcScenario
 	for pi, p := range progs {
 		for _, selDesc := range []bool{false, true} {
-			if tier == "quick" && (pi == 1 || (selDesc && pi != 0)) {
+			if tier == "quick" && selDesc && pi != 0 && pi != 3 {
 				continue
 			}
 			cc := c
